@@ -47,6 +47,9 @@ func ParseAuditPath(serialized map[string]hashing.Digest) AuditPath {
 	parsed := make(AuditPath, len(serialized))
 	for k, v := range serialized {
 		tokens := strings.Split(k, "|")
+		if len(tokens) != 2 {
+			continue // malformed key: it cannot name any position
+		}
 		index, _ := strconv.Atoi(tokens[0])
 		height, _ := strconv.Atoi(tokens[1])
 		var key [keySize]byte
@@ -74,6 +77,11 @@ func NewMembershipProof(index, version uint64, auditPath AuditPath, hasher hashi
 
 // Verify verifies a membership proof
 func (p MembershipProof) Verify(eventDigest []byte, expectedRootHash hashing.Digest) (correct bool) {
+	defer func() {
+		if r := recover(); r != nil { // incomplete audit path
+			correct = false
+		}
+	}()
 
 	// build a visitable pruned tree and then visit it to recompute root hash
 	visitor := newComputeHashVisitor(p.hasher, p.AuditPath)
@@ -98,6 +106,11 @@ func NewIncrementalProof(start, end uint64, auditPath AuditPath, hasher hashing.
 }
 
 func (p IncrementalProof) Verify(startDigest, endDigest hashing.Digest) (correct bool) {
+	defer func() {
+		if r := recover(); r != nil { // incomplete audit path
+			correct = false
+		}
+	}()
 
 	// build two visitable pruned trees and then visit them to recompute root hash
 	visitor := newComputeHashVisitor(p.hasher, p.AuditPath)
